@@ -184,6 +184,12 @@ def run(case, rec):
                 sc = (np.abs(J) @ np.abs(v)) + 1e-300
                 got = p.ravel()[:nobs]
                 rec.check(bool(np.all(np.abs(got - want) <= 16 * R.EPS * sc)), "predict != jacobian @ force for force vector %s" % v.tolist())
+            for v in vecs[-2:]:
+                est.force_ = v
+                for sel in ([0], [1, nobs - 1]):
+                    p = call(rec, est.predict, (oe[sel], on[sel]))
+                    ok = (not raised(p)) and np.asarray(p).shape == (len(sel),) and bool(np.all(np.abs(np.asarray(p) - (J @ v)[sel]) <= 16 * R.EPS * ((np.abs(J) @ np.abs(v))[sel] + 1e-300)))
+                    rec.check(ok, "Spline.predict on %d query point(s) with %d forces != jacobian @ force" % (len(sel), nf))
             rec.cls("spline/mindist=%g/%s" % (md, case["shape"]))
             return
         # ---------------- vector spline
@@ -234,6 +240,21 @@ def run(case, rec):
             sc = np.abs(J) @ np.abs(v) + 1e-300
             got = np.concatenate([np.asarray(p[0]).ravel()[:nobs], np.asarray(p[1]).ravel()[:nobs]])
             rec.check(bool(np.all(np.abs(got - want) <= 16 * R.EPS * sc)), "predict != jacobian @ force (east rows/cols first) for force %s" % v.tolist())
+        # fewer query points than forces (1, 2 and a 0-d point against 3 forces): seed C03-r3_2 took another branch there
+        for v in vecs[-2:]:
+            est.force_ = v
+            for sel in ([0], [1, nobs - 1]):
+                p = call(rec, est.predict, (oe[sel], on[sel]))
+                if raised(p):
+                    rec.check(False, "VectorSpline2D.predict on %d points raised %r" % (len(sel), p))
+                    continue
+                want = np.concatenate([(J @ v)[sel], (J @ v)[[nobs + i for i in sel]]])
+                sc = np.concatenate([(np.abs(J) @ np.abs(v))[sel], (np.abs(J) @ np.abs(v))[[nobs + i for i in sel]]]) + 1e-300
+                got = np.concatenate([np.asarray(p[0]).ravel(), np.asarray(p[1]).ravel()])
+                rec.check(got.shape == want.shape and bool(np.all(np.abs(got - want) <= 16 * R.EPS * sc)), "predict on %d query point(s) with %d forces != jacobian @ force" % (len(sel), nf))
+            p0 = call(rec, est.predict, (np.array(oe[1]), np.array(on[1])))
+            rec.check(not raised(p0) and np.asarray(p0[0]).shape == () and abs(float(p0[0]) - (J @ v)[1]) <= 16 * R.EPS * ((np.abs(J) @ np.abs(v))[1] + 1e-300),
+                      "0-d query with %d forces != jacobian @ force" % nf)
         rec.cls("vector/mindist=%g/nu=%g" % (md, nu))
         return
     if kind == "square":
